@@ -98,6 +98,47 @@ func mutate(root, rel string) []Mut {
 			if n.Recv != nil && len(n.Recv.List) > 0 {
 				curFunc = strings.TrimPrefix(text(n.Recv.List[0].Type), "*") + "." + curFunc
 			}
+			// a use of one parameter replaced by another parameter of the function (copy-paste confusion);
+			// the compiler filters the ill-typed ones
+			if n.Body != nil && n.Type.Params != nil {
+				var params []string
+				for _, f := range n.Type.Params.List {
+					for _, nm := range f.Names {
+						if nm.Name != "_" {
+							params = append(params, nm.Name)
+						}
+					}
+				}
+				if len(params) >= 2 {
+					isParam := map[string]bool{}
+					for _, pn := range params {
+						isParam[pn] = true
+					}
+					ast.Inspect(n.Body, func(m ast.Node) bool {
+						if sel, ok := m.(*ast.SelectorExpr); ok {
+							// only the base of a selector is a variable use
+							if id, ok := sel.X.(*ast.Ident); ok && isParam[id.Name] && id.Obj != nil && id.Obj.Kind == ast.Var {
+								for _, o := range params {
+									if o != id.Name {
+										add(id, off(id.Pos()), off(id.End()), o, "param-swap")
+									}
+								}
+							}
+							return false
+						}
+						if id, ok := m.(*ast.Ident); ok && isParam[id.Name] && id.Obj != nil && id.Obj.Kind == ast.Var {
+							if _, isField := id.Obj.Decl.(*ast.Field); isField {
+								for _, o := range params {
+									if o != id.Name {
+										add(id, off(id.Pos()), off(id.End()), o, "param-swap")
+									}
+								}
+							}
+						}
+						return true
+					})
+				}
+			}
 		case *ast.IfStmt:
 			add(n, off(n.Cond.Pos()), off(n.Cond.End()), "!("+text(n.Cond)+")", "negate-if")
 			if n.Else != nil {
